@@ -7,7 +7,8 @@ prop=$1; out=$2; wt=${3:-/tmp/seed/wt-$prop}
 git -C $wt checkout -q -- . ; git -C $wt clean -qfdx
 res=$out/confirm.txt; : > $res
 export QHTTPENGINE_SRC=$wt QHTTPENGINE_SOURCE_DIR=$wt
-rundemo() { ( cd $out && BUILD_DIR=$wt/_demo$1 sh ./build.sh $wt $wt/_demo$1 >/dev/null 2>&1 ); echo $?; }
+# the demo scripts default to the worktree they were written for; no positional arguments (their meaning differs between scripts)
+rundemo() { ( cd $out && sh ./build.sh >/dev/null 2>&1 ); echo $?; }
 echo "demo_original_exit=$(rundemo 0)" | tee -a $res
 git -C $wt apply $out/patch.diff && echo "patch_applies=yes" | tee -a $res || { echo "patch_applies=NO" | tee -a $res; exit 1; }
 ( cmake -G Ninja -S $wt -B $wt/_b -DBUILD_TESTS=ON -DCMAKE_BUILD_TYPE=RelWithDebInfo >/dev/null 2>&1 && cmake --build $wt/_b >/dev/null 2>&1 ) && echo "builds=yes" | tee -a $res || echo "builds=NO" | tee -a $res
